@@ -16,21 +16,65 @@ const char* RULE =
     "payload and the accepted value has a non-empty re-encoding (it consumed at least one tag / element), which then goes "
     "through the serialize -> parse fixpoint check";
 
-// F5 (known finding): the top-level deserialize of std::vector<float/double> (and smart pointers
-// to it) reserves BytesUntilLimit()/sizeof(T) elements, which is SIZE_MAX/sizeof(T) on a
-// stream-backed CodedInputStream without an enclosing limit: length_error inside noexcept.
+// F5 (known finding): std::vector<float/double>::deserialize reserves BytesUntilLimit()/sizeof(T)
+// elements. On a stream-backed CodedInputStream without an enclosing limit BytesUntilLimit() is -1
+// (a) for a top-level vector, and (b) for a vector below the root whenever the announced length
+// of the enclosing field is larger than INT_MAX - position or negative as an int, because
+// CodedInputStream::PushLimit ignores such a limit: reserve(SIZE_MAX/sizeof(T)) throws
+// length_error inside a noexcept function. Shape excluded by default: limit-less stream
+// presentation and either the root is such a vector (or a smart pointer to one), or the root
+// reaches one and the payload holds a varint of 5 or more bytes (value >= 2^28). (Smaller announced
+// lengths are reserved as announced, up to 256 MiB from a few bytes of input; that is not counted
+// as a violation of the listed property and stays below the Watchdog's allocation bound.)
+inline bool has_huge_varint(const std::string& p) {
+  for (size_t i = 0; i + 4 < p.size(); i++)
+    if ((p[i] & 0x80) && (p[i + 1] & 0x80) && (p[i + 2] & 0x80) && (p[i + 3] & 0x80)) return true;
+  return false;
+}
 template <class T>
-bool known_f5_toplevel_vector_unlimited_stream(int in_kind) {
-  return f5_reserves<T>::value && in_is_unlimited_stream(in_kind);
+bool known_f5_vector_reserve_unlimited_stream(int in_kind, const std::string& payload) {
+  if (!in_is_unlimited_stream(in_kind)) return false;
+  return f5_reserves<T>::value || (f5_reserve_reach<T>() && has_huge_varint(payload));
+}
+
+// F9 (finding of this target): a container of length-delimited elements reads each element's
+// length with `is.ReadVarint32(&length) ? length : 0`, so an unreadable length makes an "empty"
+// element whose parse succeeds without consuming anything, and the container loop never advances:
+// it spins forever and, for vector / list, grows without bound. Two ways to get there:
+//  (a) a varint longer than 10 bytes (ReadVarint32 fails without consuming once >= 10 bytes are
+//      buffered): any container of length-delimited elements, any presentation;
+//  (b) the input ends before the announced end of a std::vector / ReusableVector (loop condition
+//      BytesUntilLimit() > 0) on a stream-backed CodedInputStream without an enclosing limit,
+//      where PushLimit accepts a limit beyond the end of the data: any truncated input. The same
+//      happens when the elements are smart pointers (unique_ptr/shared_ptr::deserialize returns
+//      true when nothing can be read).
+// Shapes excluded by default: (a) the root reaches such a container and the payload holds 10
+// consecutive bytes with the continuation bit; (b) limit-less stream presentation and the root
+// reaches a vector of length-delimited or smart-pointer elements.
+template <class T>
+bool known_f9_unreadable_length_no_progress(int in_kind, const std::string& payload) {
+  if (in_is_unlimited_stream(in_kind) && f9_vector_reach<T>()) return true;
+  if (!f9_reach<T>()) return false;
+  int run = 0;
+  for (unsigned char c : payload) {
+    run = (c & 0x80) ? run + 1 : 0;
+    if (run >= 10) return true;
+  }
+  return false;
 }
 
 template <class T>
 void run_root(int root, int in_kind, const Pattern& pat, const std::string& payload, const uint8_t* data, size_t size) {
   std::string desc = std::string(root_names()[root]) + " via " + in_name(in_kind) + " chunks " + pat.str() + " payload " + hex(payload, 300);
-  if (known_f5_toplevel_vector_unlimited_stream<T>(in_kind) && !allow_known("f5")) {
+  if (known_f5_vector_reserve_unlimited_stream<T>(in_kind, payload) && !allow_known("f5")) {
     vfz::label("excluded_known_f5");
     return;
   }
+  if (known_f9_unreadable_length_no_progress<T>(in_kind, payload) && !allow_known("f9")) {
+    vfz::label("excluded_known_f9");
+    return;
+  }
+  Watchdog watchdog(desc, 5);
   auto first = std::make_unique<Holder<T>>();
   bool accepted = parse_with(in_kind, pat, payload, first->get());
   vfz::label(accepted ? "accepted" : "rejected");
@@ -73,6 +117,7 @@ void run_root(int root, int in_kind, const Pattern& pat, const std::string& payl
 extern "C" int LLVMFuzzerTestOneInput(const uint8_t* data, size_t size) {
   vfz::begin_case(RULE);
   quiet_protobuf();
+  strip_witness_prefix(data, size);
   uint8_t head[4] = {0, 0, 1, 0};
   for (size_t i = 0; i < 4 && i < size; i++) head[i] = data[i];
   int root = head[0] % ROOTS;
